@@ -7,12 +7,13 @@ Open Scope list_scope.
 (* (compiled rules, start, whole input, fuel, per composition: the complete trees available after the last piece, and
    whether can_continue() was false after some proper prefix).
    1 = every composition yields exactly the one-shot forest of the chart model and never gives up on a prefix of a member;
-   0 = some composition differs; 3 = the parser gave up on a prefix of a word that is in the language; 5 = model out of fuel *)
+   0 = some composition loses a one-shot parse; 2 = some composition has additional parses only; 3 = the parser gave up on a prefix of a word that is in the language; 5 = model out of fuel *)
 Definition c13_eval (c : crules * string * input * nat * list (list tree * bool)) : nat :=
   let '(g, start, inp, fuel, comps) := c in
   if existsb (fun n => Nat.leb fuel n) (admitted fuel g start inp) then 5 else
   let oneshot := parse_m fuel g start inp in
-  if negb (forallb (fun cb => forest_eq_set (fst cb) oneshot) comps) then 0
+  if negb (forallb (fun cb => forest_subset oneshot (fst cb)) comps) then 0      (* some way of cutting loses a parse *)
+  else if negb (forallb (fun cb => forest_subset (fst cb) oneshot) comps) then 2  (* only additional parses *)
   else match oneshot with
        | [] => 1
        | _ => if existsb snd comps then 3 else 1
